@@ -120,6 +120,13 @@ def genome_pipeline(ctx, replay, prop):
                 if len(ctx.samples) >= 2:
                     break
     ctx.extra["scope"] = {"traces": len(results), "steps_per_segment": jobs[0][1] if jobs else 0, "segments": 4}
+    if prop == "C03" and (replay is None or any(v.get("replay", {}).get("kind") == "schedule" for v in replay.get("violations", []))):
+        # "one meaning per number" and "issued numbers are fresh" hold under either executor: every interleaving of the registry
+        # protocol for two reproduction goroutines (InnovPar.tla) is forced on the real mutators, incl. the re-use of a split
+        # that was recorded with non-consecutive numbers
+        import pipe_parallel
+        pipe_parallel.forced_schedules(ctx, replay, "C03", ["split-split", "split-linksplit"] + (["two-each"] if thorough else []), 0,
+                                       asfound=False, clauses=["number with two meanings", "issued number not larger", "node id shared"])
     if prop in ("C01", "C03", "C06"):
         # the population-level clauses of the same property: constructed populations and whole epochs (Trace_Epoch)
         import pipe_epoch
